@@ -108,6 +108,30 @@ func Round(g *G, n int) []Program {
 		}
 		out = append(out, g.Flush("round"))
 	}
+	// operands of different word counts aligned on a word boundary, the longer one made of all-nines words, a carry coming
+	// out of the common part and running through every word above it (the vector kernels are called with slices of
+	// different origin and must stop where the shorter one ends); also borrows through all-zero words
+	for k := 2; k <= 4; k++ {
+		for j := 0; j < k; j++ {
+			for _, low := range []string{"1000000000000000000", "9999999999999999999", "5000000000000000001"} {
+				x := rep("9", 19*k)
+				if g.Bool() {
+					x = rep("9", 19*(k-1)) + g.Digits(19) // the carry stops in the low word or not
+				}
+				for _, op := range []string{"Add", "Sub"} {
+					g.Load("r0", false, x, int64(19*k), 0, g.Mode())
+					g.Load("r1", op == "Sub", low, int64(19*(j+1)), 0, g.Mode())
+					z := g.PickS("r2", "r0", "r1")
+					if z == "r2" {
+						g.Receiver("r2", g.Pick(19*k+1, 19*k+1, 19*k, 5), g.Mode())
+					}
+					g.Emit(M{"op": op, "z": z, "x": "r0", "y": "r1"})
+					g.Emit(M{"op": op, "z": "r3", "x": "r1", "y": "r0"})
+				}
+			}
+		}
+		out = append(out, g.Flush("round"))
+	}
 	for i := 0; i < n; i++ {
 		p, m := g.Prec(), g.Mode()
 		switch k := g.R.Intn(100); {
